@@ -314,7 +314,69 @@ def large_oracle(case):
     return {"nt": True, "labels": [f"cells:{nr * nc}"]}
 
 
+def enum_manyvertices(tier):
+    vs = [63, 64, 65, 127, 128, 129, 255, 256, 257] if tier == "quick" else \
+        [63, 64, 65, 127, 128, 129, 255, 256, 257, 511, 512, 513, 1000,
+         1023, 1024, 1025, 4097]
+    for v in vs:
+        for shape in ("star", "zigzag"):
+            yield {"v": v, "shape": shape}
+
+
+def manyvertices_oracle(case):
+    """Polygons of 63 .. 4097 vertices with integer coordinates (star shaped
+    with alternating radii, or a zigzag band) and half-integer query points:
+    exact crossing-number reference on integers."""
+    v, shape = case["v"], case["shape"]
+    if shape == "star":
+        ang = 2 * np.pi * np.arange(v) / v
+        rad = np.where(np.arange(v) % 2 == 0, 1000., 400.)
+        poly = np.round(np.column_stack([rad * np.cos(ang),
+                                         rad * np.sin(ang)]))
+    else:
+        # band: teeth along the top, straight bottom
+        k = np.arange(v - 2)
+        top = np.column_stack([10. * k, np.where(k % 2 == 0, 100., 40.)])
+        poly = np.vstack([top, [[10. * (v - 3), -50.], [0., -50.]]])
+    rng = np.random.RandomState(v)
+    lo, hi = poly.min(axis=0) - 20, poly.max(axis=0) + 20
+    pts = np.column_stack([rng.randint(lo[0], hi[0], size=400),
+                           rng.randint(lo[1], hi[1], size=400)]) + 0.5
+    got = call(pts, poly)
+    # even-odd rule in exact integer arithmetic (coordinates doubled)
+    X, Y = (2 * pts[:, 0]).astype(np.int64), (2 * pts[:, 1]).astype(np.int64)
+    px, py = (2 * poly[:, 0]).astype(np.int64), \
+        (2 * poly[:, 1]).astype(np.int64)
+    inside = np.zeros(len(pts), dtype=bool)
+    onedge = np.zeros(len(pts), dtype=bool)
+    for i in range(v):
+        x1, y1, x2, y2 = px[i], py[i], px[(i + 1) % v], py[(i + 1) % v]
+        if y1 == y2:
+            continue
+        cond = (y1 > Y) != (y2 > Y)
+        # x of the crossing > X  <=>  (x1 - X)*(y2 - y1) + (Y - y1)*(x2 - x1)
+        # has the sign of (y2 - y1)
+        num = (x1 - X) * (y2 - y1) + (Y - y1) * (x2 - x1)
+        right = np.where(y2 > y1, num > 0, num < 0)
+        inside ^= cond & right
+        onedge |= cond & (num == 0)
+    # (a point exactly on an edge is not judged; any other point is at least
+    # 1/(2*edge length) > 1e-4 away from every edge)
+    got, inside, pts = got[~onedge], inside[~onedge], pts[~onedge]
+    if not np.array_equal(got, inside):
+        k = int(np.argmax(got != inside))
+        raise Violation(
+            f"{shape} polygon of {v} vertices: point {pts[k].tolist()} is "
+            f"{'inside' if inside[k] else 'outside'} by the even-odd rule "
+            f"but points_inside_polygon returns {int(got[k])} "
+            f"({int((got != inside).sum())} of {len(pts)} points differ)")
+    return {"nt": True, "labels": [f"vertices:{v}", f"shape:{shape}",
+                                   f"inside:{int(inside.sum())}"]}
+
+
 SUBS = [
+    Sub("C15.many-vertices", manyvertices_oracle, enumerate=enum_manyvertices,
+        shards=(6, 12)),
     Sub("C15.large-grids", large_oracle, enumerate=enum_large,
         shards=(4, 16)),
     Sub("C15.even-odd", oracle, strategy=cases, n=(400, 6000),
